@@ -22,6 +22,16 @@ let lnat l = nat_of_int (List.length l)
 let array_ok n l = array_ok (nat_of_int n) l
 let rec take n l = if n <= 0 then [] else match l with [] -> [] | x :: t -> x :: take (n - 1) t
 
+(* A count beyond the arrays (up to SIZE_MAX): C18_counts_beyond_arrays proves that neither the model nor the spec
+   depends on it once it exceeds the lengths, so both are evaluated at min(count, longest array + 1).
+   (Counts are unary nat in the extracted model; 2^64 - 1 successors cannot be built.) *)
+let next_count t lens =
+  let c = next_big t in
+  let cap = 1 + List.fold_left max 0 lens in
+  if Big.leq c (Big.of_int cap) then Big.to_int c else cap
+
+let opt_list = function [] -> None | l -> Some l
+
 let classes =
   [ "isalnum", (isalnum_m, isalnum_s); "isalpha", (isalpha_m, isalpha_s); "isblank", (isblank_m, isblank_s);
     "iscntrl", (iscntrl_m, iscntrl_s); "isdigit", (isdigit_m, isdigit_s); "isgraph", (isgraph_m, isgraph_s);
@@ -52,7 +62,7 @@ let str_case ct g t =
       (pr ok_sign (strcmp_m ct a b),
        (match str_of a, str_of b with Some x, Some y -> ok_sign (strcmp_s x y) | _ -> "na"))
   | "strncmp" ->
-      let a = next_zlist t in let b = next_zlist t in let n = next_int t in
+      let a = next_zlist t in let b = next_zlist t in let n = next_count t [len a; len b] in
       (pr ok_sign (strncmp_m ct a b (nat_of_int n)),
        if array_ok n a && array_ok n b then ok_sign (strncmp_s a b (nat_of_int n)) else "na")
   | "memcmp" ->
@@ -66,7 +76,7 @@ let str_case ct g t =
       let s = next_zlist t in let ch = next_z t in
       (pr ok_off (strrchr_m ct s ch), (match str_of s with Some a -> ok_off (strrchr_s a (conv_char wide ch)) | None -> "na"))
   | "memchr" ->
-      let s = next_zlist t in let ch = next_z t in let n = next_int t in
+      let s = next_zlist t in let ch = next_z t in let n = next_count t [len s] in
       let sp = memchr_s s (conv_char wide ch) (nat_of_int n) in
       (pr ok_off (memchr_m ct s ch (nat_of_int n)), if n <= len s || sp <> None then ok_off sp else "na")
   | "strspn" | "strcspn" ->
@@ -97,7 +107,7 @@ let str_case ct g t =
        (match str_of d, str_of s with
         | Some a, Some b when len a + len b + 1 <= len d -> ok_buf 0 (strcat_s d a b) | _ -> "na"))
   | "strncat" ->
-      let d = next_zlist t in let s = next_zlist t in let n = next_int t in
+      let d = next_zlist t in let s = next_zlist t in let n = next_count t [len s] in
       (pr (ok_buf 0) (strncat_m d s (nat_of_int n)),
        (match str_of d with
         | Some a when array_ok n s && len a + len (upto_nul_excl (nat_of_int n) s) + 1 <= len d ->
@@ -115,6 +125,26 @@ let str_case ct g t =
       let m = next_zlist t in let d = next_int t in let s = next_int t in let n = next_int t in
       (pr (ok_buf d) (memmove_m m (nat_of_int d) (nat_of_int s) (nat_of_int n)),
        if d + n <= len m && s + n <= len m then ok_buf d (memmove_s m (nat_of_int d) (nat_of_int s) (nat_of_int n)) else "na")
+  (* ---- review round: paths of the front ends *)
+  | "memmove2" ->
+      (* <dst> <src> n <dst_first>: two different allocations inside one block; dst_first = 1 puts the destination at
+         the lower address, so `ps < pd` is false (forward loop), 0 the other way round (backward loop) *)
+      let d = next_zlist t in let s = next_zlist t in let n = next_int t in let dst_first = next_int t in
+      (pr (ok_buf 0) (memmove2_m (dst_first = 0) d s (nat_of_int n)),
+       if n <= len s && n <= len d then ok_buf 0 (memcpy_s d s (nat_of_int n)) else "na")
+  | "strcpy_null" | "strncpy_null" | "memmove_null" ->
+      (* <which>: 1 = destination null, 2 = source null, 3 = both; the other argument is a small valid buffer.
+         Expected (reference leg of the harness): the documented precondition fails -> contract.  C: undefined -> spec na *)
+      let w = next_int t in
+      let d = if w land 1 <> 0 then None else Some (List.map z_of_int [201; 202; 203]) in
+      let src = if w land 2 <> 0 then None else Some (List.map z_of_int [97; 0]) in
+      let n = nat_of_int 1 in
+      ((match g with
+        | "strcpy_null" -> pr (ok_buf 0) (strcpy_front_m d src)
+        | "strncpy_null" -> pr (ok_buf 0) (strncpy_front_m d src n)
+        | _ -> if wide then "na" else pr (ok_buf 0) (memmove_front_m false d src n)), "na")
+  | "strchr_null" -> let ch = next_z t in (pr ok_off (strchr_front_m None ch), "na")
+  | "strrchr_null" -> let ch = next_z t in (pr ok_off (strrchr_front_m ct None ch), "na")
   | _ -> raise Not_found
 
 let pow2 k = z_of_big (Big.shift_left Big.one k)
